@@ -18,6 +18,7 @@ import (
 	"go/constant"
 	"go/token"
 	"go/types"
+	"math/big"
 	"sort"
 	"strings"
 
@@ -1031,7 +1032,17 @@ func fit(l lat, t types.Type) lat {
 		lo = constant.UnaryOp(token.SUB, hi, 0)
 	}
 	if constant.Compare(l.c, token.LSS, lo) || constant.Compare(l.c, token.GEQ, hi) {
-		return latTop
+		// Go integer conversions and arithmetic wrap around (two's complement)
+		v, ok := new(big.Int).SetString(l.c.ExactString(), 10)
+		if !ok {
+			return latTop
+		}
+		mod := new(big.Int).Lsh(big.NewInt(1), bits)
+		v.Mod(v, mod) // Euclidean: 0 ≤ v < 2^bits
+		if signed && v.Cmp(new(big.Int).Lsh(big.NewInt(1), bits-1)) >= 0 {
+			v.Sub(v, mod)
+		}
+		return lat{k: kConst, c: constant.Make(v)}
 	}
 	return l
 }
